@@ -6,9 +6,19 @@
    are skipped by `step` itself, illegal random outcomes are rejected by `step` itself, so no
    hypothesis on the history is needed.  wf c  :=  0 < width /\ 0 < height. *)
 From Coq Require Import ZArith List Bool.
-From Mesa Require Import Common.ListX Model.LegacyGrid Proofs.LegacyGridProofs Proofs.LegacyGridSim.
+From Mesa Require Import Common.ListX Generated.Tables Model.LegacyGrid Proofs.LegacyGridProofs Proofs.LegacyGridSim.
 Import ListNotations.
 Open Scope Z_scope.
+
+(* --- T1: what the CURRENT source writes into _empty_mask in the four place/remove methods
+       (value, nested under `if self._empties_built`), re-extracted by harness/tables/c08_mask_writes.py
+       on every run; the model's place/remove use these pairs, so every theorem below is re-checked
+       against them *)
+Theorem C08_source_mask_writes :
+  gen_mask_single_place = (false, false) /\ gen_mask_single_remove = (true, false) /\
+  gen_mask_multi_place = (false, false) /\ gen_mask_multi_remove = (true, false).
+Proof. vm_compute. repeat split; reflexivity. Qed.
+Print Assumptions C08_source_mask_writes.
 
 (* --- the invariant holds after every history (all four classes: c_multi; torus on/off; any size) *)
 Theorem C08_agree : forall c ops, wf c -> Agree c (run c init ops).
@@ -116,16 +126,22 @@ Print Assumptions C08_move_to_empty_full_grid.
 
 (* --- move_agent_to_one_of lands on (the wrap of) one of the offered cells; with "closest" no
        offered cell is nearer (squared toroidal / Euclidean distance between grid cells) *)
-Theorem C08_move_to_one_of_member_and_closest : forall c s a pa cells sl he out s' l,
+Theorem C08_move_to_one_of_member : forall c s a pa cells sl he out s' l,
   wf c -> Agree c s -> pos s a = Some pa -> cells <> [] ->
   step c s (MoveToOneOf a cells sl he out) = (s', Ok l) ->
   exists offered landing,
     In offered cells /\ torus_adj c offered = Some landing /\ pos s' a = Some landing /\
-    (forall b, b <> a -> pos s' b = pos s b) /\
-    (sl = SelClosest ->
-       forall q q', In q cells -> torus_adj c q = Some q' -> dist2 c landing pa <= dist2 c q' pa).
-Proof. exact move_one_of_step. Qed.
-Print Assumptions C08_move_to_one_of_member_and_closest.
+    (forall b, b <> a -> pos s' b = pos s b).
+Proof. exact move_one_of_member. Qed.
+Print Assumptions C08_move_to_one_of_member.
+
+Theorem C08_closest_is_nearest : forall c s a pa cells he out s' l,
+  wf c -> Agree c s -> pos s a = Some pa -> cells <> [] ->
+  step c s (MoveToOneOf a cells SelClosest he out) = (s', Ok l) ->
+  exists landing, pos s' a = Some landing /\
+    forall q q', In q cells -> torus_adj c q = Some q' -> dist2 c landing pa <= dist2 c q' pa.
+Proof. exact closest_is_nearest. Qed.
+Print Assumptions C08_closest_is_nearest.
 
 (* --- the per-axis distance used by "closest" on a torus is the true toroidal one: the least
        |d + k*n| over all wraps k, and it is attained *)
@@ -212,7 +228,7 @@ Example C08_example_move_to_empty :
   placed f 1 = true /\ snd (step c f (MoveToEmpty 1 false (0, 0))) = Err E_NO_EMPTY.
 Proof. vm_compute. repeat split; congruence. Qed.
 
-(* C08_move_to_one_of_member_and_closest / C08_toroidal_distance_is_least: offers more than one
+(* C08_move_to_one_of_member / C08_closest_is_nearest / C08_toroidal_distance_is_least: offers more than one
    grid size away; (9,0) wraps to (4,0), one step from (0,0) on a 5x4 torus, and beats (2,0) *)
 Example C08_example_closest :
   let c := {| c_w := 5; c_h := 4; c_torus := true; c_multi := true |} in
